@@ -263,7 +263,7 @@ Proof.
     destruct l as [| u n | ws]; cbn [lv_scal lvl_vols].
     + rewrite !map_map. apply map_ext_in. intros. apply IH. auto.
     + cbn [map]. f_equal. rewrite tscale_treduce. f_equal.
-      simpl in Hl0. rewrite map2_repeat by (rewrite map_length; lia).
+      simpl in Hl0. rewrite map2_repeat by (rewrite map_length, Hl0; exact Hn).
       rewrite !map_map. apply map_ext_in. intros x Hx.
       rewrite <- (IH x Hx). rewrite tscale_tscale. reflexivity.
     + cbn [map]. f_equal. rewrite tscale_treduce. f_equal.
@@ -271,3 +271,581 @@ Proof.
       apply map2_ext. intros w x Hx.
       rewrite contract_tscale. rewrite tscale_comm. f_equal. apply IH. auto.
 Qed.
+
+(* ---------- from the loops of the code to the levels descriptor ---------- *)
+Definition has_vol (dom : domain) (i : nat) : Prop :=
+  exists s, nth_error dom i = Some s /\ svol s <> NoVol.
+
+Definition uvol (dom : domain) (i : nat) : Qc :=
+  match nth_error dom i with
+  | Some s => match svol s with Uniform w => w | _ => 1 end
+  | None => 1
+  end.
+Fixpoint uprod (dom : domain) (spaces : list nat) : Qc :=
+  match spaces with [] => 1 | i :: r => uvol dom i * uprod dom r end.
+
+Definition pix (dom : domain) (spaces : list nat) (j : nat) : option (list Qc) :=
+  if existsb (Nat.eqb j) spaces then
+    match nth_error dom j with
+    | Some s => match svol s with PerPixel ws => Some ws | _ => None end
+    | None => None
+    end
+  else None.
+
+Definition lvl_of (dom : domain) (spaces : list nat) (i : nat) : lvl :=
+  if existsb (Nat.eqb i) spaces then
+    match nth_error dom i with
+    | Some s => match svol s with
+                | Uniform w => LUni w (sn s)
+                | PerPixel ws => LPix ws
+                | NoVol => LKeep
+                end
+    | None => LKeep
+    end
+  else LKeep.
+Definition lvls (dom : domain) (spaces : list nat) (k : nat) : list lvl := map (lvl_of dom spaces) (seq 0 k).
+
+Lemma qpow_1 : forall w, qpow w 1 = w.
+Proof. intros. unfold qpow. simpl. ring. Qed.
+
+Lemma existsb_eqb_in : forall j l, existsb (Nat.eqb j) l = true <-> In j l.
+Proof.
+  intros. rewrite existsb_exists. split.
+  - intros (x & Hx & E). apply Nat.eqb_eq in E. subst. auto.
+  - intros. exists j. split; auto. apply Nat.eqb_refl.
+Qed.
+
+Lemma existsb_eqb_notin : forall j l, ~ In j l -> existsb (Nat.eqb j) l = false.
+Proof.
+  intros. destruct (existsb (Nat.eqb j) l) eqn:E; auto. apply existsb_eqb_in in E. tauto.
+Qed.
+
+Lemma pix_cons_other : forall dom i r j, j <> i -> pix dom (i :: r) j = pix dom r j.
+Proof.
+  intros. unfold pix. simpl. destruct (Nat.eqb_spec j i); [congruence | reflexivity].
+Qed.
+
+Lemma pix_notin : forall dom l j, ~ In j l -> pix dom l j = None.
+Proof. intros. unfold pix. rewrite existsb_eqb_notin; auto. Qed.
+
+(* the loop of Field.weight (power 1): scalar volumes are collected in fct, pixel volumes are
+   multiplied into the array, level by level *)
+Lemma weight_loop_spec : forall k dom spaces,
+  NoDup spaces -> (forall i, In i spaces -> has_vol dom i) ->
+  forall fct fm t, (forall i, In i spaces -> getf fm i = None) ->
+  exists fm', weight_loop k 1 dom spaces fct (wapply k fm t) = Some (fct * uprod dom spaces, wapply k fm' t) /\
+              forall j, getf fm' j = match pix dom spaces j with Some ws => Some ws | None => getf fm j end.
+Proof.
+  induction spaces as [| i r IH]; intros ND HV fct fm t HF.
+  - exists fm. simpl. split; [f_equal; f_equal; ring | auto].
+  - inversion ND as [| ? ? Hni NDr]. subst.
+    destruct (HV i (or_introl eq_refl)) as (s & Hs & Hnv).
+    assert (forall i0, In i0 r -> has_vol dom i0) as HVr by (intros; apply HV; right; auto).
+    cbn [weight_loop uprod]. rewrite Hs. unfold uvol. rewrite Hs.
+    destruct (svol s) as [w | ws |] eqn:Ev; [| | congruence].
+    + destruct (IH NDr HVr (fct * w) fm t) as (fm' & E & G).
+      { intros. apply HF. right. auto. }
+      exists fm'. split.
+      * rewrite E. f_equal. f_equal. ring.
+      * intros j. rewrite G. destruct (Nat.eq_dec j i).
+        -- subst j. rewrite (pix_notin dom r i Hni). unfold pix. simpl. rewrite Nat.eqb_refl. simpl.
+           rewrite Hs, Ev. reflexivity.
+        -- rewrite pix_cons_other; auto.
+    + rewrite (map_ext (fun w => qpow w 1) (fun w => w)) by (intros; apply qpow_1). rewrite map_id.
+      rewrite tweight_wapply by (apply HF; left; auto).
+      destruct (IH NDr HVr fct (setf fm i ws) t) as (fm' & E & G).
+      { intros i0 Hi0. rewrite getf_setf_neq. apply HF. right. auto. intro. subst. tauto. }
+      exists fm'. split.
+      * rewrite E. f_equal. f_equal. ring.
+      * intros j. rewrite G. destruct (Nat.eq_dec j i).
+        -- subst j. rewrite (pix_notin dom r i Hni). rewrite getf_setf_eq.
+           unfold pix. simpl. rewrite Nat.eqb_refl. simpl. rewrite Hs, Ev. reflexivity.
+        -- rewrite pix_cons_other; auto. rewrite getf_setf_neq; auto.
+Qed.
+
+Definition all_uniform (dom : domain) (spaces : list nat) : Prop :=
+  forall i, In i spaces -> exists s w, nth_error dom i = Some s /\ svol s = Uniform w.
+
+(* DomainTuple.scalar_weight *)
+Lemma scalar_weight_loop_uniform : forall dom spaces res,
+  all_uniform dom spaces -> scalar_weight_loop dom spaces res = WSome (res * uprod dom spaces).
+Proof.
+  induction spaces; intros; simpl.
+  - f_equal. ring.
+  - destruct (H a (or_introl eq_refl)) as (s & w & Hs & Ev). unfold uvol. rewrite Hs, Ev.
+    rewrite IHspaces. f_equal. ring. intros i Hi. apply H. right. auto.
+Qed.
+
+Lemma scalar_weight_loop_cases : forall dom spaces res,
+  (forall i, In i spaces -> has_vol dom i) ->
+  (scalar_weight_loop dom spaces res = WNone /\ ~ all_uniform dom spaces) \/
+  (scalar_weight_loop dom spaces res = WSome (res * uprod dom spaces) /\ all_uniform dom spaces).
+Proof.
+  induction spaces; intros res HV.
+  - right. split. simpl. f_equal. ring. intros i [].
+  - destruct (HV a (or_introl eq_refl)) as (s & Hs & Hnv). simpl. rewrite Hs.
+    destruct (svol s) as [w | ws |] eqn:Ev; [| | congruence].
+    + destruct (IHspaces (res * w)) as [[E N] | [E U]].
+      * intros. apply HV. right. auto.
+      * left. split; auto. intro U. apply N. intros i Hi. apply U. right. auto.
+      * right. split.
+        -- rewrite E. unfold uvol. rewrite Hs, Ev. f_equal. ring.
+        -- intros i [Hi | Hi]; [subst; eauto | auto].
+    + left. split; auto. intro U. destruct (U a (or_introl eq_refl)) as (s' & w & Hs' & Ev'). congruence.
+Qed.
+
+(* parse_spaces *)
+Lemma nodupb_NoDup : forall l, nodupb l = true -> NoDup l.
+Proof.
+  induction l; simpl; intros. constructor.
+  apply andb_prop in H. destruct H as [H1 H2]. constructor; auto.
+  intro. apply existsb_eqb_in in H. rewrite H in H1. discriminate.
+Qed.
+
+Lemma parse_spaces_ok : forall sp n spaces, parse_spaces sp n = Some spaces ->
+  NoDup spaces /\ (forall i, In i spaces -> (i < n)%nat) /\ all_spaces sp n = spaces.
+Proof.
+  intros. destruct sp as [l |]; simpl in *.
+  - destruct (forallb (fun i => (i <? n)%nat) l) eqn:E1; [| discriminate].
+    destruct (nodupb l) eqn:E2; [| discriminate]. inversion H. subst.
+    split; [apply nodupb_NoDup; auto |]. split; auto.
+    intros. rewrite forallb_forall in E1. apply Nat.ltb_lt. auto.
+  - inversion H. subst. split; [apply seq_NoDup |]. split; auto.
+    intros. apply in_seq in H0. lia.
+Qed.
+
+(* products over the levels vs products over the list of sub-domain indices *)
+Lemma lv_scal_notin : forall dom spaces a n, (forall i, In i spaces -> (i < a)%nat) ->
+  lv_scal (map (lvl_of dom spaces) (seq a n)) = 1.
+Proof.
+  intros. revert a H. induction n; intros; simpl; auto.
+  unfold lvl_of at 1. rewrite existsb_eqb_notin.
+  - apply IHn. intros. apply H in H0. lia.
+  - intro. apply H in H0. lia.
+Qed.
+
+Lemma lvl_of_cons_other : forall dom i r j, j <> i -> lvl_of dom (i :: r) j = lvl_of dom r j.
+Proof.
+  intros. unfold lvl_of. simpl. destruct (Nat.eqb_spec j i); [congruence | reflexivity].
+Qed.
+
+Definition inr (a n i : nat) : bool := ((a <=? i)%nat && (i <? a + n)%nat).
+Lemma inr_0 : forall a i, inr a 0 i = false.
+Proof.
+  intros. unfold inr. destruct (Nat.leb_spec a i); auto. simpl. apply Nat.ltb_ge. lia.
+Qed.
+Lemma inr_here : forall i n, inr i (S n) i = true.
+Proof. intros. unfold inr. apply andb_true_iff. split; [apply Nat.leb_le | apply Nat.ltb_lt]; lia. Qed.
+Lemma inr_past : forall i n, inr (S i) n i = false.
+Proof. intros. unfold inr. apply andb_false_iff. left. apply Nat.leb_gt. lia. Qed.
+Lemma inr_step : forall a n i, a <> i -> inr a (S n) i = inr (S a) n i.
+Proof.
+  intros. unfold inr.
+  destruct (Nat.leb_spec a i); destruct (Nat.leb_spec (S a) i); try lia; cbn [andb]; auto.
+  destruct (Nat.ltb_spec i (a + S n)); destruct (Nat.ltb_spec i (S a + n)); auto; lia.
+Qed.
+
+Lemma lv_scal_cons : forall dom i r a n, ~ In i r -> has_vol dom i ->
+  lv_scal (map (lvl_of dom (i :: r)) (seq a n)) =
+  (if inr a n i then uvol dom i else 1) * lv_scal (map (lvl_of dom r) (seq a n)).
+Proof.
+  intros dom i r a n Hni (s & Hs & Hnv). revert a. induction n; intros a.
+  - rewrite inr_0. cbn [seq map lv_scal]. ring.
+  - cbn [seq map].
+    rewrite (lv_scal_split (lvl_of dom (i :: r) a :: _)), (lv_scal_split (lvl_of dom r a :: _)).
+    cbn [hd tl]. rewrite IHn.
+    destruct (Nat.eq_dec a i).
+    + subst a.
+      assert (lvl_of dom (i :: r) i =
+              match svol s with Uniform w => LUni w (sn s) | PerPixel ws => LPix ws | NoVol => LKeep end) as E1.
+      { unfold lvl_of. cbn [existsb]. rewrite Nat.eqb_refl. cbn [orb]. rewrite Hs. reflexivity. }
+      assert (lvl_of dom r i = LKeep) as E2 by (unfold lvl_of; rewrite existsb_eqb_notin; auto).
+      rewrite E1, E2, inr_here, inr_past. unfold uvol. rewrite Hs.
+      destruct (svol s); try congruence; ring.
+    + rewrite (lvl_of_cons_other dom i r a n0). rewrite (inr_step a n i n0).
+      destruct (lvl_of dom r a); ring.
+Qed.
+
+Lemma lv_scal_lvls : forall dom spaces k,
+  NoDup spaces -> (forall i, In i spaces -> (i < k)%nat) -> (forall i, In i spaces -> has_vol dom i) ->
+  lv_scal (lvls dom spaces k) = uprod dom spaces.
+Proof.
+  unfold lvls. induction spaces as [| i r IH]; intros k ND HR HV.
+  - simpl. apply lv_scal_notin. intros i [].
+  - inversion ND. subst. rewrite lv_scal_cons; auto.
+    + assert (i < k)%nat by (apply HR; left; auto).
+      replace (inr 0 k i) with true
+        by (symmetry; unfold inr; apply andb_true_iff; split; [apply Nat.leb_le | apply Nat.ltb_lt]; lia).
+      cbn [uprod]. f_equal. apply IH; auto.
+      * intros. apply HR. right. auto.
+      * intros. apply HV. right. auto.
+    + apply HV. left. auto.
+Qed.
+
+Lemma lv_mask_lvls : forall dom spaces k,
+  (forall i, In i spaces -> (i < k)%nat) -> (forall i, In i spaces -> has_vol dom i) ->
+  lv_mask (lvls dom spaces k) = mask_of spaces k.
+Proof.
+  intros. unfold lv_mask, lvls, mask_of. rewrite map_map. apply map_ext_in. intros j Hj.
+  unfold lvl_of. destruct (existsb (Nat.eqb j) spaces) eqn:E; auto.
+  apply existsb_eqb_in in E. destruct (H0 j E) as (s & Hs & Hnv). rewrite Hs.
+  destruct (svol s); auto; congruence.
+Qed.
+
+Lemma getf_map_seq : forall (f : nat -> option (list Qc)) n a j,
+  getf (map f (seq a n)) j = if (j <? n)%nat then f (a + j)%nat else None.
+Proof.
+  induction n; intros; simpl.
+  - apply getf_nil.
+  - destruct j; simpl.
+    + f_equal. lia.
+    + rewrite IHn. replace (S a + j)%nat with (a + S j)%nat by lia.
+      destruct (Nat.ltb_spec j n); destruct (Nat.ltb_spec (S j) (S n)); auto; lia.
+Qed.
+
+Lemma lv_fam_lvls : forall dom spaces k j,
+  (forall i, In i spaces -> (i < k)%nat) ->
+  getf (lv_fam (lvls dom spaces k)) j = pix dom spaces j.
+Proof.
+  intros. unfold lv_fam, lvls. rewrite map_map. rewrite getf_map_seq. simpl.
+  unfold lvl_of, pix. destruct (Nat.ltb_spec j k).
+  - destruct (existsb (Nat.eqb j) spaces); auto.
+    destruct (nth_error dom j); auto. destruct (svol s); auto.
+  - rewrite existsb_eqb_notin; auto. intro. apply H in H1. lia.
+Qed.
+
+Lemma lv_ok_lvls_gen : forall dom spaces n a sh,
+  (forall j s, nth_error dom (a + j) = Some s -> (j < n)%nat -> nth j sh 0%nat = sn s) ->
+  lv_ok (map (lvl_of dom spaces) (seq a n)) sh.
+Proof.
+  induction n; intros; simpl; auto. split.
+  - unfold lvl_of. destruct (existsb (Nat.eqb a) spaces); auto.
+    destruct (nth_error dom a) eqn:E; auto. destruct (svol s) eqn:Ev; auto.
+    rewrite <- (H 0%nat s); try lia. destruct sh; auto. rewrite Nat.add_0_r. auto.
+  - apply IHn. intros. replace (S a + j)%nat with (a + S j)%nat in H0 by lia.
+    apply H in H0; try lia. destruct sh; simpl in *; auto. destruct j; auto.
+Qed.
+
+Lemma lv_ok_lvls : forall dom spaces k, length dom = k -> lv_ok (lvls dom spaces k) (map sn dom).
+Proof.
+  intros. unfold lvls. apply lv_ok_lvls_gen. intros. simpl in H0.
+  rewrite (nth_indep _ 0%nat (sn s)).
+  - change (sn s) with (sn s) at 2. apply nth_error_nth. rewrite nth_error_map. rewrite H0. reflexivity.
+  - rewrite map_length. lia.
+Qed.
+
+Lemma Qc_eq_bool_true : forall a b, Qc_eq_bool a b = true -> a = b.
+Proof. intros. apply Qc_eq_bool_correct. auto. Qed.
+
+(* ---------- Field.integrate, both code paths ---------- *)
+Theorem integrate_spec : forall k dom sp spaces t,
+  length dom = k -> parse_spaces sp k = Some spaces ->
+  (forall i, In i spaces -> has_vol dom i) ->
+  shaped k (map sn dom) t ->
+  integrate k dom sp t = Some (wint k (lvls dom spaces k) t).
+Proof.
+  intros k dom sp spaces t Hk Hp HV Hs.
+  destruct (parse_spaces_ok _ _ _ Hp) as (ND & HR & HA).
+  assert (length (lvls dom spaces k) = k) as Hlen by (unfold lvls; rewrite map_length, seq_length; auto).
+  pose proof (contract_wapply k (lvls dom spaces k) (map sn dom) t Hlen Hs (lv_ok_lvls dom spaces k Hk)) as B.
+  rewrite lv_scal_lvls in B; auto. rewrite lv_mask_lvls in B; auto.
+  unfold integrate, scalar_weight. rewrite Hk, HA.
+  destruct (scalar_weight_loop_cases dom spaces 1 HV) as [[E N] | [E U]]; rewrite E.
+  - (* slow path: weight, then sum *)
+    unfold weight. rewrite Hk, Hp.
+    destruct (weight_loop_spec k dom spaces ND HV 1 [] t) as (fm' & EW & G).
+    { intros. apply getf_nil. }
+    rewrite wapply_nil in EW. rewrite EW. rewrite qpow_1.
+    unfold csum. rewrite Hk, Hp. f_equal. rewrite <- B.
+    assert (wapply k fm' t = wapply k (lv_fam (lvls dom spaces k)) t) as EF.
+    { apply wapply_ext. intros j. rewrite G, getf_nil, lv_fam_lvls; auto. destruct (pix dom spaces j); auto. }
+    destruct (Qc_eq_bool (1 * uprod dom spaces) 1) eqn:Q.
+    + apply Qc_eq_bool_true in Q. replace (uprod dom spaces) with 1 by (rewrite <- Q; ring).
+      rewrite tscale_1. rewrite EF. reflexivity.
+    + rewrite contract_tscale. rewrite EF. f_equal. ring.
+  - (* fast path: sum, then multiply with the scalar volume *)
+    unfold csum. rewrite Hk, Hp. f_equal. rewrite <- B.
+    replace (1 * uprod dom spaces) with (uprod dom spaces) by ring. f_equal. f_equal.
+    rewrite <- (wapply_nil k t) at 1. apply wapply_ext. intros j.
+    rewrite getf_nil, lv_fam_lvls; auto. unfold pix.
+    destruct (existsb (Nat.eqb j) spaces) eqn:Ej; auto.
+    apply existsb_eqb_in in Ej. destruct (U j Ej) as (s & w & Hs' & Ev). rewrite Hs', Ev. reflexivity.
+Qed.
+
+(* ---------- Field.mean = integrate / total volume, both code paths ---------- *)
+Fixpoint cnt (dom : domain) (spaces : list nat) : Qc :=
+  match spaces with
+  | [] => 1
+  | i :: r => match nth_error dom i with Some s => nQ (sn s) | None => 1 end * cnt dom r
+  end.
+
+Lemma count_loop_cnt : forall dom spaces res, count_loop dom spaces res = res * cnt dom spaces.
+Proof.
+  induction spaces; intros; simpl. ring.
+  destruct (nth_error dom a); rewrite IHspaces; ring.
+Qed.
+
+Lemma total_volume_loop_uniform : forall dom spaces res, all_uniform dom spaces ->
+  total_volume_loop dom spaces res = Some (res * (cnt dom spaces * uprod dom spaces)).
+Proof.
+  induction spaces; intros; simpl.
+  - f_equal. ring.
+  - destruct (H a (or_introl eq_refl)) as (s & w & Hs & Ev). unfold uvol, space_volume. rewrite Hs, Ev.
+    rewrite IHspaces. f_equal. ring. intros i Hi. apply H. right. auto.
+Qed.
+
+Theorem mean_spec : forall k dom sp spaces t r v,
+  length dom = k -> parse_spaces sp k = Some spaces ->
+  (forall i, In i spaces -> has_vol dom i) ->
+  integrate k dom sp t = Some r -> total_volume dom sp = Some v -> v <> 0 ->
+  mean k dom sp t = Some (tscale k (1 / v) r).
+Proof.
+  intros k dom sp spaces t r v Hk Hp HV HI HT Hv.
+  destruct (parse_spaces_ok _ _ _ Hp) as (ND & HR & HA).
+  unfold integrate, mean in *. unfold scalar_weight in *. rewrite Hk, HA in *.
+  destruct (scalar_weight_loop_cases dom spaces 1 HV) as [[E N] | [E U]]; rewrite E in *.
+  - destruct (weight k 1 dom sp t) as [t' |]; [| discriminate].
+    rewrite HI, HT. reflexivity.
+  - unfold csum in HI. rewrite Hk, Hp in *. inversion HI. subst r. clear HI.
+    unfold total_volume in HT. rewrite Hk, HA in HT. rewrite total_volume_loop_uniform in HT; auto.
+    inversion HT. subst v. clear HT.
+    rewrite count_loop_cnt. rewrite tscale_tscale. f_equal. f_equal.
+    assert (cnt dom spaces <> 0) by (intro Z; apply Hv; rewrite Z; ring).
+    assert (uprod dom spaces <> 0) by (intro Z; apply Hv; rewrite Z; ring).
+    field. repeat split; auto.
+Qed.
+
+(* ---------- linearity of contractions; vdot is sesquilinear ---------- *)
+Section Additive.
+Variable g : C -> C.
+Hypothesis g_add : forall a b, g (cadd a b) = cadd (g a) (g b).
+Hypothesis g_0 : g c0 = c0.
+
+Lemma tmap_tpz_add : forall k a b, tmap k g (tpz k cadd a b) = tpz k cadd (tmap k g a) (tmap k g b).
+Proof.
+  induction k; simpl; intros; auto. apply padzip_map. intros. apply IHk.
+Qed.
+
+Lemma tmap_treduce : forall k l, tmap k g (treduce k cadd c0 l) = treduce k cadd c0 (map (tmap k g) l).
+Proof.
+  induction l; simpl.
+  - destruct k; simpl; auto.
+  - unfold treduce in *. simpl. rewrite tmap_tpz_add. f_equal. auto.
+Qed.
+
+Lemma contract_tmap : forall k mask t,
+  contract k cadd c0 mask (tmap k g t) = tmap k g (contract k cadd c0 mask t).
+Proof.
+  induction k; intros; auto.
+  cbn [contract tmap]. rewrite map_map.
+  rewrite (map_ext _ (fun x => tmap k g (contract k cadd c0 (tl mask) x))) by (intros; apply IHk).
+  rewrite <- map_map.
+  destruct (hd false mask).
+  - cbn [map]. f_equal. symmetry. apply tmap_treduce.
+  - reflexivity.
+Qed.
+End Additive.
+
+Lemma padzip_comm : forall (A : Type) (f : A -> A -> A) l1 l2,
+  (forall a b, f a b = f b a) -> padzip f l1 l2 = padzip f l2 l1.
+Proof. induction l1; destruct l2; simpl; intros; auto. f_equal; auto. Qed.
+
+Lemma padzip_assoc : forall (A : Type) (f : A -> A -> A) l1 l2 l3,
+  (forall a b c, f a (f b c) = f (f a b) c) -> padzip f l1 (padzip f l2 l3) = padzip f (padzip f l1 l2) l3.
+Proof.
+  induction l1; destruct l2; destruct l3; simpl; intros; auto. f_equal; auto.
+Qed.
+
+Lemma padzip_nil_r : forall (A : Type) (f : A -> A -> A) l, padzip f l [] = l.
+Proof. destruct l; auto. Qed.
+
+Lemma tpz_add_comm : forall k a b, tpz k cadd a b = tpz k cadd b a.
+Proof. induction k; simpl; intros. apply cadd_comm. apply padzip_comm. auto. Qed.
+
+Lemma tpz_add_assoc : forall k a b c, tpz k cadd a (tpz k cadd b c) = tpz k cadd (tpz k cadd a b) c.
+Proof. induction k; simpl; intros. apply cadd_assoc. apply padzip_assoc. auto. Qed.
+
+Lemma tpz_unit_l : forall k a, tpz k cadd (tunit k c0) a = a.
+Proof. destruct k; simpl; intros; auto. apply cadd_0_l. Qed.
+
+Lemma tpz_unit_r : forall k a, tpz k cadd a (tunit k c0) = a.
+Proof. intros. rewrite tpz_add_comm. apply tpz_unit_l. Qed.
+
+Lemma treduce_padzip : forall k X Y,
+  treduce k cadd c0 (padzip (tpz k cadd) X Y) = tpz k cadd (treduce k cadd c0 X) (treduce k cadd c0 Y).
+Proof.
+  unfold treduce. induction X; destruct Y; simpl; intros.
+  - symmetry. apply tpz_unit_l.
+  - symmetry. apply tpz_unit_l.
+  - symmetry. apply tpz_unit_r.
+  - rewrite IHX.
+    set (TX := fold_right (tpz k cadd) (tunit k c0) X). set (TY := fold_right (tpz k cadd) (tunit k c0) Y).
+    rewrite <- !tpz_add_assoc. f_equal. rewrite !tpz_add_assoc. f_equal. apply tpz_add_comm.
+Qed.
+
+Lemma contract_tpz_add : forall k mask x y,
+  contract k cadd c0 mask (tpz k cadd x y) = tpz k cadd (contract k cadd c0 mask x) (contract k cadd c0 mask y).
+Proof.
+  induction k; intros; auto.
+  cbn [contract tpz].
+  rewrite (padzip_map _ (tpz k cadd) (contract k cadd c0 (tl mask))) by (intros; apply IHk).
+  destruct (hd false mask); auto.
+  cbn [padzip]. f_equal. apply treduce_padzip.
+Qed.
+
+Lemma map2_padzip_l : forall (A B : Type) (f : A -> A -> A) (f' : B -> B -> B) (g : A -> A -> B) l1 l2 l3,
+  (forall a b c, g (f a b) c = f' (g a c) (g b c)) ->
+  map2 g (padzip f l1 l2) l3 = padzip f' (map2 g l1 l3) (map2 g l2 l3).
+Proof.
+  induction l1; intros l2 l3 H.
+  - reflexivity.
+  - destruct l2.
+    + cbn [padzip]. change (map2 g [] l3) with (@nil B). rewrite padzip_nil_r. reflexivity.
+    + destruct l3; simpl; auto. f_equal; auto.
+Qed.
+
+Lemma map2_padzip_r : forall (A B : Type) (f : A -> A -> A) (f' : B -> B -> B) (g : A -> A -> B) l1 l2 l3,
+  (forall a b c, g c (f a b) = f' (g c a) (g c b)) ->
+  map2 g l3 (padzip f l1 l2) = padzip f' (map2 g l3 l1) (map2 g l3 l2).
+Proof.
+  induction l1; intros l2 l3 H.
+  - cbn [padzip]. destruct l3; reflexivity.
+  - destruct l2.
+    + cbn [padzip]. destruct l3; simpl; auto. 
+    + destruct l3; simpl; auto. f_equal; auto.
+Qed.
+
+Lemma tzip_mul_add_l : forall k a a' b,
+  tzip k cmul (tpz k cadd a a') b = tpz k cadd (tzip k cmul a b) (tzip k cmul a' b).
+Proof.
+  induction k; simpl; intros. apply cmul_add_l. apply map2_padzip_l. intros. apply IHk.
+Qed.
+
+Lemma tzip_mul_add_r : forall k a b b',
+  tzip k cmul a (tpz k cadd b b') = tpz k cadd (tzip k cmul a b) (tzip k cmul a b').
+Proof.
+  induction k; simpl; intros. apply cmul_add_r. apply map2_padzip_r. intros. apply IHk.
+Qed.
+
+Lemma map2_map_l : forall (A A' B D : Type) (f : A' -> B -> D) (g : A -> A') l1 l2,
+  map2 f (map g l1) l2 = map2 (fun a b => f (g a) b) l1 l2.
+Proof. induction l1; destruct l2; simpl; auto. intros. f_equal. auto. Qed.
+
+Lemma map2_ext_all : forall (A B D : Type) (f g : A -> B -> D) l1 l2,
+  (forall a b, f a b = g a b) -> map2 f l1 l2 = map2 g l1 l2.
+Proof. intros. apply map2_ext. auto. Qed.
+
+Lemma tzip_mul_tmap_l : forall k c a b,
+  tzip k cmul (tmap k (cmul c) a) b = tmap k (cmul c) (tzip k cmul a b).
+Proof.
+  induction k; simpl; intros.
+  - symmetry. apply cmul_assoc.
+  - rewrite map2_map_l, map_map2. apply map2_ext_all. intros. apply IHk.
+Qed.
+
+Lemma tzip_mul_tmap_r : forall k c a b,
+  tzip k cmul a (tmap k (cmul c) b) = tmap k (cmul c) (tzip k cmul a b).
+Proof.
+  induction k; simpl; intros.
+  - rewrite !cmul_assoc. f_equal. apply cmul_comm.
+  - rewrite map2_map_r, map_map2. apply map2_ext_all. intros. apply IHk.
+Qed.
+
+Definition vd (k : nat) (mask : list bool) (a b : tens k) : tens k :=
+  contract k cadd c0 mask (tzip k cmul (tmap k cconj a) b).
+
+Lemma cmul_additive : forall c a b, cmul c (cadd a b) = cadd (cmul c a) (cmul c b).
+Proof. intros. apply cmul_add_r. Qed.
+
+Lemma vd_linear_r : forall k mask c a b b',
+  vd k mask a (tpz k cadd b (tmap k (cmul c) b')) =
+  tpz k cadd (vd k mask a b) (tmap k (cmul c) (vd k mask a b')).
+Proof.
+  intros. unfold vd. rewrite tzip_mul_add_r, contract_tpz_add. f_equal.
+  rewrite tzip_mul_tmap_r. apply contract_tmap.
+  - apply cmul_additive.
+  - apply cmul_0_r.
+Qed.
+
+Lemma vd_conj_linear_l : forall k mask c a a' b,
+  vd k mask (tpz k cadd a (tmap k (cmul c) a')) b =
+  tpz k cadd (vd k mask a b) (tmap k (cmul (cconj c)) (vd k mask a' b)).
+Proof.
+  intros. unfold vd.
+  rewrite (tmap_tpz_add cconj cconj_add).
+  rewrite tzip_mul_add_l, contract_tpz_add. f_equal.
+  rewrite tmap_tmap.
+  rewrite (tmap_ext k (fun x => cconj (cmul c x)) (fun x => cmul (cconj c) (cconj x))) by (intros; apply cconj_mul).
+  rewrite <- (tmap_tmap k (cmul (cconj c)) cconj).
+  rewrite tzip_mul_tmap_l. apply contract_tmap.
+  - apply cmul_additive.
+  - apply cmul_0_r.
+Qed.
+
+(* ---------- domain identity ---------- *)
+Lemma Qc_eq_bool_refl : forall a, Qc_eq_bool a a = true.
+Proof. intros. unfold Qc_eq_bool. destruct (Qc_eq_dec a a); auto; congruence. Qed.
+
+Lemma forallb_combine_eq : forall x y : list Qc, length x = length y ->
+  forallb (fun p => Qc_eq_bool (fst p) (snd p)) (combine x y) = true -> x = y.
+Proof.
+  induction x; destruct y; simpl; intros; try discriminate; auto.
+  apply andb_prop in H0. destruct H0. f_equal.
+  - apply Qc_eq_bool_true. auto.
+  - apply IHx; auto.
+Qed.
+
+Lemma forallb_combine_refl : forall x : list Qc, forallb (fun p => Qc_eq_bool (fst p) (snd p)) (combine x x) = true.
+Proof. induction x; simpl; auto. rewrite Qc_eq_bool_refl. auto. Qed.
+
+Lemma space_eqb_iff : forall a b, space_eqb a b = true <-> a = b.
+Proof.
+  intros [n1 v1] [n2 v2]. unfold space_eqb. simpl. split.
+  - intros H. apply andb_prop in H. destruct H as [H1 H2]. apply Nat.eqb_eq in H1. subst.
+    destruct v1, v2; try discriminate; auto.
+    + apply Qc_eq_bool_true in H2. subst. auto.
+    + apply andb_prop in H2. destruct H2 as [H2 H3]. apply Nat.eqb_eq in H2.
+      rewrite (forallb_combine_eq ws ws0); auto.
+  - intros H. inversion H. subst. rewrite Nat.eqb_refl. simpl. destruct v2; auto.
+    + apply Qc_eq_bool_refl.
+    + rewrite Nat.eqb_refl. simpl. apply forallb_combine_refl.
+Qed.
+
+Lemma dom_eqb_iff : forall a b, dom_eqb a b = true <-> a = b.
+Proof.
+  induction a; destruct b; simpl; split; intros; try discriminate; auto.
+  - apply andb_prop in H. destruct H. f_equal. apply space_eqb_iff; auto. apply IHa; auto.
+  - inversion H. subst. apply andb_true_iff. split. apply space_eqb_iff; auto. apply IHa; auto.
+Qed.
+
+Lemma binop_defined_iff : forall k f d1 d2 a b,
+  (exists r, binop k f d1 d2 a b = Some r) <-> d1 = d2.
+Proof.
+  intros. unfold binop. destruct (dom_eqb d1 d2) eqn:E.
+  - split; intros. apply dom_eqb_iff; auto. eauto.
+  - split; intros. destruct H; discriminate. apply dom_eqb_iff in H. congruence.
+Qed.
+
+Lemma vdot_rejects_mismatch : forall k d1 d2 sp a b, d1 <> d2 -> vdot k d1 d2 sp a b = None.
+Proof.
+  intros. unfold vdot. destruct (dom_eqb d1 d2) eqn:E; auto. apply dom_eqb_iff in E. congruence.
+Qed.
+
+Lemma vdot_is_vd : forall k dom sp spaces a b, parse_spaces sp (length dom) = Some spaces ->
+  vdot k dom dom sp a b = Some (vd k (mask_of spaces (length dom)) a b).
+Proof.
+  intros. unfold vdot, csum. rewrite (proj2 (dom_eqb_iff dom dom) eq_refl). rewrite H. reflexivity.
+Qed.
+
+Lemma binop_pointwise : forall k f dom a b, binop k f dom dom a b = Some (tzip k f a b).
+Proof. intros. unfold binop. rewrite (proj2 (dom_eqb_iff dom dom) eq_refl). reflexivity. Qed.
+
+Lemma var_is_mean_square_deviation : forall k dom sp (t m : tens k),
+  mean k dom sp t = Some m ->
+  var k dom sp t = mean k dom sp (tmap k cabs2 (tbcast k csub t m)).
+Proof. intros. unfold var. rewrite H. reflexivity. Qed.
+
+Lemma sum_linear : forall k mask q (x y : tens k),
+  contract k cadd c0 mask (tpz k cadd x (tscale k q y)) =
+  tpz k cadd (contract k cadd c0 mask x) (tscale k q (contract k cadd c0 mask y)).
+Proof. intros. rewrite contract_tpz_add, contract_tscale. reflexivity. Qed.
